@@ -842,12 +842,19 @@ func (p *Printer) cmdSubst(cs *CmdSubst) {
 	switch {
 	case cs.TempFile:
 		p.w.WriteString("${")
+		// avoid ; in an empty substitution
+		p.wroteSemi = len(cs.Stmts) == 0
 		p.wantSpace = spaceRequired
 		p.nestedStmts(cs.Stmts, cs.Last, cs.Right)
+		if len(cs.Stmts) == 0 && len(cs.Last) == 0 {
+			p.w.WriteByte(' ') // "${}" would be a parameter expansion
+		}
 		p.wantSpace = spaceNotRequired
 		p.semiRsrv("}", cs.Right)
 	case cs.ReplyVar:
 		p.w.WriteString("${|")
+		// avoid ; in an empty substitution
+		p.wroteSemi = len(cs.Stmts) == 0
 		p.nestedStmts(cs.Stmts, cs.Last, cs.Right)
 		p.wantSpace = spaceNotRequired
 		p.semiRsrv("}", cs.Right)
